@@ -28,11 +28,11 @@ func init() {
 		ID:    "C14",
 		Level: "exploration",
 		Rule: "race-detector build. Round i is one of: (W1) M marker-carrying RPCs of mixed forms/codecs/compressions (incl. faulty ones) whose outcomes are first computed alone and then executed from G in {2,8,32} goroutines " +
-			"on the same Transcoder, with yields injected at the hook points; oracle: each RPC's canonical outcome equals its solo outcome and carries no foreign marker. (W2) full-duplex streams: the handler reads the request stream and " +
+			"on the same Transcoder, with yields injected at the hook points; oracle: each RPC's canonical outcome equals its solo outcome (computed with the monitor off, i.e. released buffers untouched) and carries no foreign marker. (W2) full-duplex streams: the handler reads the request stream and " +
 			"writes the response stream from two goroutines while the request stream is fault-free or hits a malformed envelope / oversized frame / undecodable message / body error at a chosen message; oracle: fault-free streams deliver exactly " +
 			"the handler's messages; faulted streams stay well-formed for the client's protocol (complete frames, a prefix of what the handler wrote, exactly one end). Monitors: (1) Go race detector (reports read from this process's GORACE log, " +
 			"de-duplicated by the pair of innermost vanguard functions); (2) pool ownership automaton on the hook events (second release of a buffer or (de)compressor, hand-out of a live one) with whole-array poison on release, a check at the next hand-out that the poison is intact, and a quarantine, both detecting writes after release; " +
-			"(W3) error paths one RPC at a time (tiny limits with chunked handler writes, messages failing inside the decompressor, cut bodies) with the automaton on. (3) thorough: porcupine linearizability check of the recorded pool history against a sequential ownership model. Two run modes: A = no shared monitor state touched by both goroutines of a stream (the race log is the verdict), " +
+			"(W3) error paths one RPC at a time (tiny limits with chunked handler writes, messages failing inside the decompressor, cut bodies), each RPC run twice - monitor off, then on - and compared: a difference means a buffer was still read after its release (the monitor overwrites a buffer the moment it is released). (3) thorough: porcupine linearizability check of the recorded pool history against a sequential ownership model. Two run modes: A = no shared monitor state touched by both goroutines of a stream (the race log is the verdict), " +
 			"B = effect monitors on. non-trivial = a round in which at least two RPCs overlapped / a stream in which both goroutines made progress between each other's hook points; distinct by (workload, G, fault, interleaving signature)",
 		Assume: []string{"the handler may read the request body and write the response concurrently (net/http full duplex); it does not call ResponseWriter methods from two goroutines itself"},
 		N:       func(t string) int { return tierN(t, 90, 1800) },
@@ -41,7 +41,7 @@ func init() {
 		Run:     runC14,
 		Finish:  c14Finish,
 		MinimaFor: func(t string) map[string]int {
-			return map[string]int{"w1-rpcs-concurrent": tierN(t, 1200, 24000), "w2-streams": tierN(t, 150, 3000), "w2-both-sides-progressed": tierN(t, 60, 1200), "w3-rpcs-sequential": tierN(t, 1500, 30000), "w3-rpcs-failed": tierN(t, 300, 6000)}
+			return map[string]int{"w1-rpcs-concurrent": tierN(t, 1200, 24000), "w2-streams": tierN(t, 150, 3000), "w2-both-sides-progressed": tierN(t, 60, 1200), "w3-rpcs-sequential": tierN(t, 1500, 30000), "w3-rpcs-failed": tierN(t, 300, 6000), "w3-twin-runs-compared": tierN(t, 1400, 28000)}
 		},
 	})
 }
@@ -86,6 +86,18 @@ func (p *poolMon) id(b *bytes.Buffer) int {
 	id := len(p.bufIDs) + 1
 	p.bufIDs[b] = id
 	return id
+}
+
+// c14Monitor switches the ownership monitor. What it knew about buffers is forgotten when it is switched on again:
+// while it was off, buffers it had seen released (and poisoned) were handed out, written and released unseen.
+func c14Monitor(on bool) {
+	p := c14Pool
+	p.mu.Lock()
+	if on && !p.enabled.Load() {
+		p.live, p.codecLive = map[*bytes.Buffer]bool{}, map[any]bool{}
+	}
+	p.enabled.Store(on)
+	p.mu.Unlock()
 }
 
 func c14Setup(c *Ctx) {
@@ -302,7 +314,11 @@ func c14W1(c *Ctx, i int, r *rand.Rand, modeB bool) {
 			}
 		}
 	}
-	// solo outcomes
+	// solo outcomes. "Alone" also means without the ownership monitor: released buffers keep their contents, so an RPC
+	// that still READS a buffer it has released gets what it would get in production when nobody else is around, while
+	// in the concurrent phase (monitor on in mode B) the release poisons the buffer, as a second RPC taking it would
+	monitored := c14Pool.enabled.Load()
+	c14Monitor(false)
 	solo := make([]*Exec, len(rpcs))
 	for k, p := range rpcs {
 		e, err := c14Run(p, r)
@@ -311,6 +327,7 @@ func c14W1(c *Ctx, i int, r *rand.Rand, modeB bool) {
 		}
 		solo[k] = e
 	}
+	c14Monitor(monitored)
 	G := pick(r, []int{2, 8, 32})
 	conc := make([]*Exec, len(rpcs))
 	started := make([]int64, len(rpcs))
@@ -662,12 +679,37 @@ func c14W3(c *Ctx, i int, r *rand.Rand) {
 				s.Script.Msgs[j] = genMessage(r, s.Req.M.Out(), genOpts{noMaps: true, density: 40, maxStr: 6, simpleStr: true})
 			}
 		}
-		e, err := runRPC(s.Cfg, s.Req, s.Script, r, &eo)
-		if err != nil {
+		// the same RPC first without the monitor (released buffers keep their contents), then with it (a release
+		// poisons the buffer at once): an RPC that reads a buffer after releasing it answers differently
+		built, berr := s.Req.Build(r)
+		if berr != nil {
+			continue
+		}
+		s.Req.UseRawBody, s.Req.RawBody = true, built.Raw
+		seed := r.Uint64()
+		twin := func() (*Exec, error) {
+			cr, sc, o := *s.Req, *s.Script, eo
+			return runRPC(s.Cfg, &cr, &sc, rand.New(rand.NewPCG(seed, 3)), &o)
+		}
+		c14Monitor(false)
+		plain, perr := twin()
+		c14Monitor(true)
+		e, err := twin()
+		if err != nil || perr != nil {
 			continue
 		}
 		c.Eval()
 		c.Count("w3-rpcs-sequential")
+		if plain.Panic == nil && e.Panic == nil {
+			c.Count("w3-twin-runs-compared")
+			vp, vm := viewOf(plain), viewOf(e)
+			d1, _ := seqDiff(plain.Backend.Obs.Msgs, e.Backend.Obs.Msgs, false)
+			d2, _ := seqDiff(plain.Out.Msgs, e.Out.Msgs, false)
+			if !reflect.DeepEqual(vp, vm) || !msgsEqual(plain.Backend.Obs.Msgs, e.Backend.Obs.Msgs) || !msgsEqual(plain.Out.Msgs, e.Out.Msgs) {
+				c.Violate(i, "released-buffer-still-read/"+c20Field(vp, vm), fmt.Sprintf("request messages at the backend: %s; response messages at the client: %s\n"+"the same RPC, run alone twice: once with released pool buffers left as they are, once with every buffer overwritten the moment it is released. "+
+					"The outcomes differ, so something was read from a buffer after its release.\nuntouched: %+v\npoisoned: %+v\n--- untouched:\n%s--- poisoned on release:\n%s", orNone(d1), orNone(d2), vp, vm, plain.Describe(), e.Describe()))
+			}
+		}
 		if !e.Out.OK() {
 			c.Count("w3-rpcs-failed")
 		}
